@@ -191,6 +191,8 @@ impl Elem for u8 {
     fn vec_from_val(v: &Val) -> Option<Vec<Self>> {
         match v {
             Val::Bytes(b) => Some(b.clone()),
+            // a slice of mirrored u8 travels as a list of numbers
+            Val::List(xs) => xs.iter().map(u8::from_val).collect(),
             _ => None,
         }
     }
